@@ -119,6 +119,19 @@ def gen(ctx, tier, rng):
         h2 = edpy.hram(Renc2, Ap, m)
         L.append("sign.verify %s %s %s" % (hexs(Renc2 + le32((r + h2 * a) % LL)), hexs(m), hexs(Ap)))
         L.append("sign.pk_to_curve %s" % hexs(Ap))
+    # mixed-order public key A' = A + T combined with a small-order R and S = h*a: the cofactored equation holds
+    # (S*B - h*A' = -h*T is small order, and so is R), so ONLY the small-order-R test stands between this forgery and acceptance;
+    # several messages so that h mod 8 takes every value
+    for T in edpy.TORSION:
+        if T == edpy.TORSION[0] and edpy.enc(T) == edpy.enc(edpy.mul(0, edpy.B)) if hasattr(edpy, "TORSION") else False:
+            continue
+        Ap = edpy.enc(edpy.add(A, T))
+        for T2 in edpy.TORSION:
+            for Tenc in aliases(T2):
+                for j in range(6 if tier != "thorough" else 16):
+                    m2 = m + bytes([j])
+                    h = edpy.hram(Tenc, Ap, m2)
+                    L.append("sign.verify %s %s %s" % (hexs(Tenc + le32(h * a % LL)), hexs(m2), hexs(Ap)))
     # non-canonical public key / R encodings of ordinary points: y + p does not fit for random points, so use small y
     for y in range(0, 19):
         for sb in (0, 1):
